@@ -7,7 +7,7 @@ def prop(pid, **kw):
 prop("C01",
      level="exploration",
      tests=[dict(name="TestC01", quick=1500, thorough=4000)],
-     rule="rapid-generated KV histories (1-40 steps: write transactions of 1-5 Put/PutWithTimestamp/Delete over 2-3 buckets and a drawn key universe (70% 2-7 keys; 25% 'wide' 8-30 keys and 5% 'bulk' 40-90 keys in one bucket, so that the order-8 B+ trees have several leaves and levels and range bounds fall between leaves; transactions of up to 8/20 calls there), reopen steps; both RAM index modes x RWMode x loading mode x sync x segment size 120..8192) checked after every step against an ordered-map-with-TTL model by a systematic read battery (Get of every key, GetAll, PrefixScan of every key prefix, RangeScan, drawn RangeScan/PrefixSearchScan). A case is non-trivial when at least one segment rotation happened and the history deleted a previously written key or left an expired key next to a live one in the same bucket; distinct = distinct case JSON (hashed).",
+     rule="rapid-generated KV histories (1-40 steps: write transactions of 1-5 Put/PutWithTimestamp/Delete over 2-3 buckets and a drawn key universe (70% 2-7 keys; 25% 'wide' 8-30 keys and 5% 'bulk' 40-90 keys in one bucket, so that the order-8 B+ trees have several leaves and levels and range bounds fall between leaves; transactions of up to 8/20 calls there), reopen steps, Merge steps (4% of steps; Merge must not change what the model says); values of 0-24 text bytes or 20-60 binary bytes with runs of zeros; both RAM index modes x RWMode x loading mode x sync x segment size 120..8192) checked after every step against an ordered-map-with-TTL model by a systematic read battery (Get of every key, GetAll, PrefixScan of every key prefix, RangeScan, drawn RangeScan/PrefixSearchScan). A case is non-trivial when at least one segment rotation happened and the history deleted a previously written key or left an expired key next to a live one in the same bucket; distinct = distinct case JSON (hashed).",
      assumptions=["expiry instants are at least 10^6 s away from the wall clock (valid until 2033)",
                   "the reference model (model_test.go) is correct"])
 
@@ -113,7 +113,7 @@ prop("C11",
 prop("C12",
      level="fault_enumeration", engine="E1+E3",
      tests=[dict(name="TestC12", quick=400, thorough=1500)],
-     rule="rapid-generated mixed histories (<=8 steps, KV in all index modes, structures in KeyVal mode) with one 'bad' transaction of 1-4 state-changing calls inserted at a drawn position, of a drawn kind: function returns an error after k calls (db.Update), explicit Rollback, an oversized entry at a drawn position, an injected write error at EVERY write event of its Commit in turn (each with 0, 7 and 43 bytes written before the error), an injected sync error at every sync event in turn, a read-only transaction calling every mutating API, or calls of every mutating API on the transaction after Commit/Rollback. 8% of the other steps are Merge calls on every database (what the bad transaction left in the segments must not be brought to life). The bad transaction prefers the keys the history uses and may contain SPop (except for sync faults); after a failed db.Update/db.View the database lock is probed (a write transaction must be able to begin: otherwise DEADLOCK). The bad transaction runs on the main database only; a twin runs the history without it; per-call results and the full observation of main and twin must agree after every step, in the process and after reopen; mutating calls in read-only/finished transactions must return errors; after a sync error the state must equal the twin without the transaction or a second twin that committed it. Non-trivial: the bad transaction contains at least one call that would change the observation (and, for fault kinds, at least one fault plan fired).",
+     rule="rapid-generated mixed histories (<=8 steps, KV in all index modes, structures in KeyVal mode) with one 'bad' transaction of 1-4 state-changing calls inserted at a drawn position, of a drawn kind: function returns an error after k calls (db.Update), explicit Rollback, an oversized entry at a drawn position, an injected write error at EVERY write event of its Commit in turn (each with 0, 7, 43 and all-but-the-last byte written before the error), an injected sync error at every sync event in turn, a read-only transaction calling every mutating API, or calls of every mutating API on the transaction after Commit/Rollback. 8% of the other steps are Merge calls on every database (what the bad transaction left in the segments must not be brought to life). The bad transaction prefers the keys the history uses and may contain SPop (except for sync faults); after a failed db.Update/db.View the database lock is probed (a write transaction must be able to begin: otherwise DEADLOCK). The bad transaction runs on the main database only; a twin runs the history without it; per-call results and the full observation of main and twin must agree after every step, in the process and after reopen; mutating calls in read-only/finished transactions must return errors; after a sync error the state must equal the twin without the transaction or a second twin that committed it. Non-trivial: the bad transaction contains at least one call that would change the observation (and, for fault kinds, at least one fault plan fired).",
      assumptions=["a failed write leaves the record physically incomplete (if the omitted suffix is all zero bytes the torn prefix is shortened, because the zero-filled segment would already hold the complete record)",
                   "known finding sparse-index-files-not-crash-consistent: I/O-fault cases run in KeyOnly instead of sparse mode (counted under excluded)",
                   "known finding c15-merge-list-duplication: histories with Merge steps run without their list calls (counted under excluded)"],
@@ -129,7 +129,7 @@ prop("C13",
 prop("C03",
      level="exploration",
      tests=[dict(name="TestC03", quick=700, thorough=2000)],
-     rule="rapid-generated KV histories (puts, deletes, expired and live TTL puts over 3-8 keys (10% of cases 9-18 keys, so pages cross B+ tree leaves) on the alphabet {a,b,c}, reopen steps, all three index modes); then for every prefix of every written key ALL pages are enumerated: PrefixScan(prefix, offset, limit) for offset 0..n+1 and limit in {ScanNoLimit} U 1..n+1 (n = keys ever written under the prefix) and PrefixSearchScan(prefix, regexp, 0, limit) for every such limit; each page must equal live_prefixed[offset:offset+limit] of the model ('not found' only when that slice is empty). Non-trivial: under some prefix a deleted or expired key precedes a live key; inner_enumerations counts the pages checked.",
+     rule="rapid-generated KV histories (puts, deletes, expired and live TTL puts over 3-8 keys (10% of cases 9-18 keys, so pages cross B+ tree leaves) on the alphabet {a,b,c}, reopen steps, Merge steps in the RAM index modes, all three index modes); then for every prefix of every written key ALL pages are enumerated: PrefixScan(prefix, offset, limit) for offset 0..n+1 and limit in {ScanNoLimit} U 1..n+1 (n = keys ever written under the prefix) and PrefixSearchScan(prefix, regexp, 0, limit) for every such limit; each page must equal live_prefixed[offset:offset+limit] of the model ('not found' only when that slice is empty). Non-trivial: under some prefix a deleted or expired key precedes a live key; inner_enumerations counts the pages checked.",
      assumptions=["limit 0 and limits below -1 are unspecified and not generated"],
      technique="model-based property testing (rapid) with exhaustive page enumeration per generated history")
 
